@@ -309,6 +309,8 @@ structure St where
   loaded : List String := []
   rot : Bool := false
   dwell : Rat := 0
+  /-- tree interpreter only: which file of the exported tree a loaded program name stands for -/
+  bound : List (String × String) := []
 deriving Repr, Inhabited
 
 def lookupVar (vals : List (String × Rat)) (v : String) : Option Rat := (vals.find? (·.1 == v)).map (·.2)
